@@ -45,7 +45,7 @@ class C03(Check):
                    'events after a boundary received on_error / on_completed are invisible to the subscriber (RxPY AutoDetachObserver) and are not judged']
     ANCHORS = ['rxsci/data/roll.py', 'rxsci/data/split.py', 'rxsci/data/time_split.py', 'rxsci/operators/group_by.py', 'rxsci/operators/tee_map.py',
                'rxsci/operators/multiplex.py', 'rxsci/state/with_store.py', 'rxsci/mux/muxobservable.py', 'rxsci/mux/muxconnectable.py']
-    REQUIRED_TAGS = ['depth>=3', 'empty-source', 'single-item', 'scale', 'several-streams-on-one-store'] + PRELUDE_TAGS
+    REQUIRED_TAGS = ['depth>=3', 'empty-source', 'single-item', 'scale', 'several-streams-on-one-store'] + ['history-fed-more-than-the-judged-stream'] + PRELUDE_TAGS
     REQUIRED_OBSERVED = ['boundary:' + k for k in KINDS] + ['events:create', 'events:next', 'events:completed', 'events:on_completed']
 
     def generate(self, rng, tier, shard, nshards):
